@@ -5,7 +5,7 @@ import random, datetime
 import vlib, bundle as B, runner
 
 LEVEL = "proof"
-RULE = ("3-5 probe mods with priorities from {50,100,100,150,30} in random configuration order, teardown behaviours ok/raise/value, optional start-up failure; fault at a random "
+RULE = ("3-5 probe mods with priorities from {50,100,100,150,30,0,-5} (0 = 'before everything', a falsy value) in random configuration order, teardown behaviours ok/raise/value, optional start-up failure; fault at a random "
         "callback (init, before_trading, open_auction, handle_bar, scheduled, after_trading, subscribed POST_BAR / TRADE handler) of a random day, of every origin, or no fault; "
         "non-trivial = run with a fault or a raising teardown; distinct = by (origin, callback kind, teardown pattern, priority pattern)")
 TRUSTED = ["probe mods and the fault-injecting data source are harness code using rqalpha's mod / data-source extension points"]
@@ -30,7 +30,7 @@ def one_run(ctx, corr):
     extra = {}
     start_fail = rnd.random() < 0.08
     for k in range(nmods):
-        prio = rnd.choice([50, 100, 100, 150, 30])
+        prio = rnd.choice([50, 100, 100, 150, 30, 0, -5])
         td = rnd.choice(["ok", "ok", "raise", "value", "value"])
         m = {"tag": k + 1, "prio": prio, "start": "raise" if (start_fail and k == rnd.randrange(nmods)) else "ok", "teardown": td, "value": 100 + k}
         mods.append(m)
